@@ -215,6 +215,14 @@ func checkCase(c Case) evid.Outcome {
 			if mustPanic(func() { a.f.Get("/zz-dup-name", func() {}).Name(c.Routes[0].Name) }) == nil {
 				return evid.Fail("dup-name", "registering a second route named %q did not panic", c.Routes[0].Name)
 			}
+			// the same path declared for another method and given the same name is
+			// a second route asking for a taken name as well
+			r0 := c.Routes[0]
+			if d0, ok := a.byName[r0.Name]; ok && r0.Via == "get" {
+				if mustPanic(func() { a.f.Patch(d0.Source(), func() {}).Name(r0.Name) }) == nil {
+					return evid.Fail("dup-name", "PATCH %q named %q although GET %q holds that name: no panic", d0.Source(), r0.Name, d0.Source())
+				}
+			}
 			out.Classes = append(out.Classes, "bad:dup-name")
 		}
 	case "unknown-name":
